@@ -903,6 +903,13 @@ class TupleCol:
 
 def _m_groupby(self, interp):
     def groupby(by=None, **kw):
+        if callable(by) and not isinstance(by, (list, tuple, str)):
+            # groupby(function of the index label): only the constant function (everything in one group) is modelled
+            r = by(V(self.axis.root.u))
+            if isinstance(r, V) or r is None:
+                raise Undecided("groupby(function) with a non-constant function")
+            _use("groupby(lambda label: const): all rows in one group")
+            return GroupBy(self, [], interp)
         by = [by] if isinstance(by, str) else list(by)
         return GroupBy(self, by, interp)
 
@@ -1153,8 +1160,39 @@ class GroupBy:
         _use("groupby(keys).agg(name=(col,'sum')): named group sums")
         return self._result(cols)
 
+    def apply(self, func, include_groups=True, **kw):
+        """groupby(keys).apply(lambda x: pd.Series({...})): `func` is run ONCE on the view of the generic group (the rows
+        whose key tuple is the generic group); every entry of the returned record must be a scalar"""
+        f = self.frame
+        if len(f.axis.doms) != 1:
+            raise Undecided("groupby.apply on a concatenated frame")
+        gs = self._space()
+        segs = self._group_dom(gs)
+        p = self._present(gs, segs)
+        _use("groupby(keys).apply(f -> Series of scalars): one row per group, f evaluated on the rows of the group")
+        gax = RowAxis(f.axis.root, [segs[0]], ("group", f.axis.order))
+        view = Frame(gax, {}, ("labels", f.index), f.idkey)
+        for k, c in f.cols.items():
+            if k in self.by and not include_groups:
+                continue
+            view.cols[k] = c if isinstance(c, Poison) else V(c.t, (gax,), view.index, c.nan, c.inf, c.meta)
+        res = func(view)
+        if not isinstance(res, SeriesRecord):
+            raise Undecided("groupby.apply with a function that does not return pd.Series({...})")
+        ax = RowAxis(gs, [p], ("sorted", tuple(self.by)))
+        out = Frame(ax, {}, ("groupkeys", ax.name), None)
+        for b in self.by:
+            out.cols[b] = V(gs.keyvars[b], (ax,), out.index)
+        for k, v in res.data.items():
+            if not isinstance(v, V):
+                v = V(to_term(v))
+            if [a for a in v.axes if a is not ONE]:
+                raise Undecided(f"groupby.apply: entry {k!r} of the record is not a scalar")
+            out.cols[k] = V(v.t, (ax,), out.index, v.nan, v.inf)
+        return out
+
     def pyvc_getattr(self, interp, name):
-        if name in ("sum", "size", "agg"):
+        if name in ("sum", "size", "agg", "apply"):
             return getattr(self, name)
         raise Undecided(f"groupby(...).{name}")
 
@@ -1191,6 +1229,22 @@ def presence_instances(ctx, root, point, rows=(), rounds=2):
         for row in allrows:
             ctx.assume(z3.Implies(z3.And(row >= 0, row < root.n, z3.substitute(member, (root.u, row), *subs)), z3.substitute(p, *subs)))
     return wits
+
+
+class SeriesRecord:
+    """pd.Series({name: scalar, ...}): a record (only as the return value of a groupby.apply function)"""
+
+    def __init__(self, data):
+        self.data = dict(data)
+
+
+def _series_ctor(interp):
+    def Series(data=None, **kw):
+        if isinstance(data, dict) and not kw:
+            return SeriesRecord(data)
+        raise Undecided("pd.Series(...) form")
+
+    return Series
 
 
 class GroupSize:
@@ -1473,6 +1527,7 @@ def pandas_table(interp):
         "isna": pd_isnull,
         "merge": lambda l, r, **kw: merge_frames(interp, l, r, **kw),
         "DataFrame": _dataframe_ctor(interp),
+        "Series": _series_ctor(interp),
         "get_dummies": lambda data, **kw: Dummies(interp, data),
     }
 
